@@ -163,7 +163,9 @@ func (i *Domain) Distance(
 			alignment = telem.NewAlignment(iter.Position(), uint32(sampleCount(iter.Size())))
 			return
 		}
-		if iter.TimeRange().ContainsStamp(tr.End) {
+		// A range that ends exactly on the end of this domain ends here too: the
+		// iterator is bounded by tr, so no later domain would ever contain tr.End.
+		if iter.TimeRange().ContainsStamp(tr.End) || tr.End == iter.TimeRange().End {
 			if err = r.Close(); err != nil {
 				return
 			}
